@@ -19,6 +19,11 @@ the receiver-side credit ledger (DLC.rx_credits against the wire), several RFCOM
 between the same devices (Client.shutdown / multiplexer disconnect / ACL loss, then set-up again), a data link
 closed while the others are busy; HFP: bursts of command lines (several per chunk, lines cut by the frame size),
 codec connection set-up started by either side with the active codec of both ends compared.
+
+extension 2 (hfp): sessions in which the hands-free side sets modes (AT+CMEE=1 / 0 above all) before commands the
+gateway grants or refuses from its configuration (call-hold operations and call indexes, AT+CMER values, AT+CIND with
+no indicators, HF indicators); the harness can play the hands-free side itself, line by line, so that gateways whose
+SLC is refused get sessions too.
 """
 
 from __future__ import annotations
@@ -71,7 +76,23 @@ RULE = (
     'next; every raw arity / form variant of the enumeration again in bursts of 8 (thorough: 8, 3, 5) lines; (f) '
     'codec connection set-up after the SLC: started by the gateway (AgProtocol.negotiate_codec with the HF routine '
     'HfProtocol.run() answering +BCS) and by the HF (setup_codec_connection), each codec of the HF list, mixed '
-    'with AT+BCS / AT+BAC in bursts; codecs the HF does not have (HF re-sends AT+BAC).'
+    'with AT+BCS / AT+BAC in bursts; codecs the HF does not have (HF re-sends AT+BAC). '
+    'EXTENSION 2 hfp (family hfp_modes + a directed family every process runs): AT sessions of 4..14 steps (single '
+    'lines or bursts of 2..5) in which mode-setting commands - AT+CMEE=1 / =0 (20 % of the lines), AT+CMER=3,0,0,x, '
+    'AT+CCWA, AT+CLIP, AT+BVRA, AT+NREC, AT+BIND=<list>, AT+BIA, AT+BAC, AT+BRSF=<mask> again - come at generated '
+    'points between commands the gateway grants or refuses from its configuration and from the modes set so far: '
+    'AT+CHLD=<n> for every call-hold operation incl. 1<idx> / 2<idx> with call indexes 1..12 against the generated '
+    'operation set (any subset, all, all but one) and call list, AT+CMER=<mode>[,<keyp>[,<disp>[,<ind>]]] over the '
+    '3GPP 27.007 value ranges (mode 0..3, keyp / disp / ind 0..2, 1..4 parameters), AT+CIND=? / AT+CIND? also '
+    'against a gateway WITHOUT indicators (a third of the sessions), AT+CHLD=? / AT+BIND=? / AT+BIND? / AT+BIEV=i,v '
+    'against the features and the HF indicators agreed last. The hands-free side is HfProtocol (initiate_slc, then '
+    'lines through execute_command or raw) or the harness itself writing every line on the data link (no '
+    'HfProtocol; the SLC script AT+BRSF / AT+CIND=? / AT+CIND? / AT+CMER / AT+CHLD=? line by line, in one write, or '
+    'absent), which is how a gateway whose SLC is refused gets a session at all. Directed: 18 granted / refused '
+    'lines under every error-report history (default, =1, =0 again, =1 again: line by line, in one write, one '
+    'write per line, and with the AT+CMEE switches INSIDE a burst) x 3 gateway configurations x harness / HfProtocol. '
+    'Classes are counted from a harness-side model of the INPUT (mode asked for so far x what the configuration '
+    'can grant), never from the result code the gateway chose.'
 )
 ASSUMPTIONS = [
     '"negotiated maximum payload" is taken per direction as the value the RECEIVER advertised in its PN '
@@ -107,6 +128,15 @@ ASSUMPTIONS = [
     'codec-negotiation feature and the HF offers that codec (for other codecs the HF answers AT+BAC and '
     'AgProtocol.negotiate_codec() waits for ever by design - not generated); indicator values pushed by +CIEV after '
     'the SLC are not judged (the statement speaks of the indicators the SLC ends with)',
+    'OK, ERROR and "+CME ERROR: <n>" each count as ONE final result code whatever AT+CMEE mode is in effect: the '
+    'statement fixes the NUMBER of final result codes per command, not which of ERROR / +CME ERROR a refusal uses, so '
+    'neither the form nor the error number is judged (a gateway that ignored AT+CMEE would pass)',
+    'AT+CMEE=<n>, AT+CHLD=<n> with any operation digit 0..4 and call index, and AT+CMER with any values of the 27.007 '
+    'ranges are commands a hands-free unit can emit (HFP 1.9 4.9, 4.22, 4.2 / 3GPP 27.007 8.10); omitted AT+CMER '
+    '<mode> and non-decimal values are not generated',
+    'a session written by the harness without HfProtocol is inside "every AT command the gateway receives": the '
+    'clause speaks about the gateway; in such sessions only the AT clause (and the RFCOMM wire rules) are judged, '
+    'the negotiated views are not (nothing negotiates on the hands-free end)',
 ]
 SHRINK_KEYS = ('ops', 'commands', 'dc', 'ds', 'ag_indicators')
 
@@ -1525,7 +1555,16 @@ def exec_hfp(case) -> Collector:
                 index=int(c[0]), direction=hfp.CallInfoDirection(int(c[1])), status=hfp.CallInfoStatus(int(c[2])),
                 mode=hfp.CallInfoMode(int(c[3])), multi_party=hfp.CallInfoMultiParty(int(c[4])),
                 number=c[5], type=c[6]))
-        hf = hfp.HfProtocol(cdlc, hf_config)
+        raw_hf = case.get('hf') == 'raw'
+        if raw_hf:
+            # the harness itself plays the hands-free role on the client end of the data link: every line of the
+            # session (the service-level connection too, if the program has one) is written as bytes; no HfProtocol
+            hf = None
+            got = bytearray()
+            cdlc.sink = got.extend
+            col.labels.add('hf_raw_session')
+        else:
+            hf = hfp.HfProtocol(cdlc, hf_config)
         tap = AtTap(ag, whole_chunks=bool(case.get('whole_chunks')))
         state.update(tap=tap, hf=hf, ag=ag)
         # remember the last command the HF wrote (for signatures)
@@ -1537,23 +1576,24 @@ def exec_hfp(case) -> Collector:
             return _w(data)
 
         cdlc.write = hf_tapped_write
-        state['wait'] = 'slc'
-        try:
-            await hf.initiate_slc()
-            state['slc'] = ('ok', None)
-        except asyncio.CancelledError:
-            raise
-        except Exception as e:  # noqa: BLE001
-            state['slc'] = ('exc', e)
-        state['wait'] = None
-        await asyncio.sleep(0.5)
-        # the negotiated views are compared now, before the command program can change them
-        judge_hfp(col, case, state, hf_mask, ag_mask)
-        if state['slc'][0] != 'ok':
-            return
+        if not raw_hf:
+            state['wait'] = 'slc'
+            try:
+                await hf.initiate_slc()
+                state['slc'] = ('ok', None)
+            except asyncio.CancelledError:
+                raise
+            except Exception as e:  # noqa: BLE001
+                state['slc'] = ('exc', e)
+            state['wait'] = None
+            await asyncio.sleep(0.5)
+            # the negotiated views are compared now, before the command program can change them
+            judge_hfp(col, case, state, hf_mask, ag_mask)
+            if state['slc'][0] != 'ok':
+                return
         both_codec = bool(hf_mask & int(HF.CODEC_NEGOTIATION)) and bool(ag_mask & int(AG.CODEC_NEGOTIATION))
         hf_codecs = [int(c) for c in case['hf_codecs']]
-        if case.get('hf_loop'):
+        if case.get('hf_loop') and not raw_hf:
             # the hands-free routine that answers unsolicited result codes (+BCS: ...)
             state['hf_task'] = asyncio.ensure_future(hf.run())
 
@@ -1568,6 +1608,8 @@ def exec_hfp(case) -> Collector:
         for i, cmd in enumerate(case.get('commands') or []):
             state['wait'] = ('command', i)
             kind = cmd[0]
+            if raw_hf and kind not in ('raw', 'burst'):
+                continue  # (there is no HfProtocol to drive)
             try:
                 if kind == 'api':
                     await getattr(hf, cmd[1])(*[int(a) for a in cmd[2:]])
@@ -1736,6 +1778,67 @@ def judge_hfp(col: Collector, case, state, hf_mask: int, ag_mask: int) -> None:
             col.fail('hfp/view/call_hold', f'HF knows call-hold operations {got}, the AG supports {list(case["chld"])}')
 
 
+def session_lines(case) -> list:
+    """The command lines of the program in the order the gateway gets them."""
+    out = []
+    for cmd in case.get('commands') or []:
+        if cmd[0] in ('raw', 'cmd'):
+            out.append(str(cmd[1]))
+        elif cmd[0] == 'burst':
+            out += [str(l) for l in cmd[1]]
+    return out
+
+
+def _decimals(text: str):
+    parts = text.split(',')
+    return [int(p) if p.isdigit() else None for p in parts]
+
+
+def refusal_class(case, line: str):
+    """Harness-side model of the INPUT: does this line ask for something the gateway's configuration cannot
+    grant (whatever result code it then uses)?  None when the line is none of the commands modelled here."""
+    if line.startswith('AT+CHLD=') and line[8:].isdigit():
+        digits = line[8:]
+        op = digits[0] + ('x' if len(digits) > 1 else '')
+        if op not in CHLD_OPS:
+            return 'chld_invalid_op'
+        if op not in list(case['chld']):
+            return 'chld_unsupported_op'
+        if len(digits) > 1 and int(digits[1:]) not in [int(c[0]) for c in case.get('calls') or []]:
+            return 'chld_unknown_index'
+        return 'chld_granted'
+    if line.startswith('AT+CMER=') and line[8:]:
+        v = _decimals(line[8:])
+        if not 1 <= len(v) <= 4 or None in v:
+            return None
+        v += [0] * (4 - len(v))
+        return 'cmer_granted' if v[0] == 3 and v[1] == 0 and v[2] == 0 and v[3] in (0, 1) else 'cmer_bad_values'
+    if line in ('AT+CIND=?', 'AT+CIND?'):
+        return 'cind_granted' if case['ag_indicators'] else 'cind_no_indicators'
+    return None
+
+
+def mode_labels(case) -> set:
+    """Which (error-report mode in effect, refusable command) pairs does the session contain?  The mode is what
+    the HF has asked for so far: default (no AT+CMEE yet), 1, or 0 (switched off again)."""
+    labels = set()
+    mode, switches = 'default', 0
+    for line in session_lines(case):
+        if line.startswith('AT+CMEE=') and line[8:].isdigit():
+            new = '1' if int(line[8:]) else '0'
+            if new != mode:
+                switches += 1
+            mode = new
+            labels.add(f'cmee_set:{new}')
+            continue
+        cls = refusal_class(case, line)
+        if cls is not None:
+            labels.add(f'cmee_{mode}_then:{cls}')
+    if switches >= 2:
+        labels.add('cmee_switched_twice')
+    return labels
+
+
 def run_hfp_case(ctx, case, record=True) -> None:
     col = exec_hfp(case)
     if col.fails:
@@ -1761,13 +1864,19 @@ def run_hfp_case(ctx, case, record=True) -> None:
         labels.add('no_ag_indicators')
     for cmd in case.get('commands') or []:
         labels.add(f'command:{cmd[0]}')
-    for line, _r, _e in getattr(col, 'exchanges', []):
+    for line, responses, _e in getattr(col, 'exchanges', []):
         labels.add(f'at:{handler_of(line)}')
+        for r in responses:
+            if is_final(r):
+                labels.add('at_final:' + r.split(':')[0])  # (observed; no floor: the statement does not fix the form)
+    if case.get('hf') == 'raw' or 'slc_completed' in labels:
+        labels |= mode_labels(case)  # (the program was run)
     nontrivial = (hf_mask, ag_mask) not in SUITE_MASKS or bool(case.get('commands'))
     ctx.case(('hfp', case), nontrivial, labels,
              sample={'hfp': {'hf': hex(hf_mask), 'ag': hex(ag_mask), 'ag_indicators': case['ag_indicators'],
                              'hf_ind': [case['hf_ind_hf'], case['hf_ind_ag']], 'codecs': case['hf_codecs'],
-                             'chld': case['chld'], 'commands': (case.get('commands') or [])[:6]}})
+                             'chld': case['chld'], 'hf': case.get('hf') or 'HfProtocol',
+                             'commands': (case.get('commands') or [])[:6]}})
 
 
 # ---------------------------------------------------------------------------
@@ -1966,6 +2075,145 @@ def hfp_session_cases():
                      extra={'whole_chunks': st.just(True), 'hf_loop': st.sampled_from([True, True, True, False])})
 
 
+# -- sessions with mode-setting commands ---------------------------------------------------------------------
+def cmee_lines():
+    return st.sampled_from(['AT+CMEE=1', 'AT+CMEE=1', 'AT+CMEE=1', 'AT+CMEE=0', 'AT+CMEE=0'])
+
+
+def mode_lines():
+    """Commands that set a mode / a table of the gateway that later commands are answered from."""
+    return st.one_of(
+        st.sampled_from(['AT+CMER=3,0,0,1', 'AT+CMER=3,0,0,0', 'AT+CCWA=0', 'AT+CCWA=1', 'AT+CLIP=0', 'AT+CLIP=1',
+                         'AT+NREC=0', 'AT+BVRA=1', 'AT+BVRA=0']),
+        st.lists(st.sampled_from(['1', '2', '3']), max_size=3).map(lambda l: 'AT+BIND=' + ','.join(l)),
+        st.lists(st.sampled_from(['0', '1', '']), max_size=7).map(lambda l: 'AT+BIA=' + ','.join(l)),
+        st.lists(st.sampled_from(['1', '2', '3']), min_size=1, max_size=3).map(lambda l: 'AT+BAC=' + ','.join(l)),
+        st.integers(0, HF_ALL).map(lambda n: f'AT+BRSF={n}'),
+    )
+
+
+def chld_lines():
+    """AT+CHLD=<n>: every call-hold operation, <idx> forms with call indexes 1..12 (existing or not)."""
+    idx = st.one_of(st.integers(1, 3), st.integers(1, 12))
+    return st.integers(0, 4).flatmap(
+        lambda n: st.sampled_from(['0', '1', '2', '3', '4']) if n < 2 else
+        st.tuples(st.sampled_from(['1', '2']), idx).map(lambda t: f'{t[0]}{t[1]}')).map(lambda n: f'AT+CHLD={n}')
+
+
+def cmer_lines():
+    """AT+CMER=<mode>[,<keyp>[,<disp>[,<ind>]]] over the value ranges of 3GPP TS 27.007 8.10 (the gateway takes
+    3,0,0,0 and 3,0,0,1 only)."""
+    return st.tuples(st.sampled_from([3, 3, 3, 0, 1, 2]), st.sampled_from([0, 0, 1, 2]), st.sampled_from([0, 0, 1, 2]),
+                     st.sampled_from([0, 1, 1, 2]), st.sampled_from([4, 4, 4, 3, 2, 1])).map(
+        lambda t: 'AT+CMER=' + ','.join(str(v) for v in t[:4][:t[4]]))
+
+
+def refusable_lines():
+    """Commands the gateway grants or refuses depending on its configuration and on the modes set before."""
+    return st.integers(0, 9).flatmap(
+        lambda n: chld_lines() if n < 3 else (cmer_lines() if n < 5 else (
+            st.sampled_from(['AT+CIND=?', 'AT+CIND?']) if n < 8 else st.one_of(
+                st.sampled_from(['AT+CHLD=?', 'AT+BIND=?', 'AT+BIND?']),
+                st.tuples(st.sampled_from([1, 2, 3]), st.integers(0, 100)).map(lambda t: f'AT+BIEV={t[0]},{t[1]}')))))
+
+
+def mode_session_line():
+    return st.integers(0, 19).flatmap(
+        lambda n: cmee_lines() if n < 4 else (mode_lines() if n < 7 else
+                                              (refusable_lines() if n < 16 else hf_role_lines())))
+
+
+def response_type_of(line: str) -> str:
+    if line in ('AT+CIND=?', 'AT+CIND?', 'AT+BIND=?', 'AT+CHLD=?') or line.startswith('AT+BRSF='):
+        return 'single'
+    if line in ('AT+BIND?', 'AT+COPS?', 'AT+BTRH?', 'AT+CLCC'):
+        return 'multiple'
+    return 'none'
+
+
+def slc_script(hf_mask: int) -> list:
+    """The command lines of a service-level connection, as a hands-free unit writes them."""
+    return [f'AT+BRSF={hf_mask}', 'AT+CIND=?', 'AT+CIND?', 'AT+CMER=3,0,0,1', 'AT+CHLD=?']
+
+
+@st.composite
+def mode_session_cases(draw):
+    """AT sessions in which mode-setting commands (AT+CMEE=0/1 above all; AT+CMER, AT+CCWA, AT+CLIP, AT+BIND,
+    AT+BIA, AT+BAC, AT+BRSF again) come at generated points between commands the gateway grants or refuses from
+    its configuration: AT+CHLD=<n> for every operation and call indexes that exist or not against the generated
+    call-hold set and call list, AT+CMER over the 27.007 value ranges, AT+CIND=? / AT+CIND? also against a gateway
+    WITHOUT indicators, AT+BIEV against the negotiated HF indicators.  The hands-free side is HfProtocol (SLC by
+    initiate_slc, lines through execute_command or raw) or the harness itself writing every line (then also on
+    configurations whose SLC the gateway refuses)."""
+    fs = st.sampled_from([23, 30, 64, 127, 1000])
+    rf = st.fixed_dictionaries({
+        'ch': st.integers(1, 30),
+        'c': st.tuples(fs, st.integers(1, 7)).map(list),
+        's': st.tuples(fs, st.integers(1, 7)).map(list),
+        'l2cap_mtu': st.tuples(st.sampled_from([48, 64, 672]), st.sampled_from([48, 64, 672])).map(list),
+    })
+    case = dict(draw(hfp_cases(commands=st.just([]), rf=rf, extra={'whole_chunks': st.booleans()})))
+    if draw(st.integers(0, 2)) == 0:
+        case['ag_indicators'] = []
+    # call-hold sets: any subset (as drawn), all operations, all but one
+    k = draw(st.integers(0, 3))
+    if k >= 2:
+        case['chld'] = [o for o in CHLD_OPS if k == 2 or o != draw(st.sampled_from(CHLD_OPS))]
+    raw_hf = not case['ag_indicators'] or draw(st.booleans())
+    commands = []
+    if raw_hf:
+        case['hf'] = 'raw'
+        how = draw(st.sampled_from(['none', 'lines', 'lines', 'one', 'each']))
+        script = slc_script(int(case['hf_features']))
+        if how == 'lines':
+            commands += [['raw', l] for l in script]
+        elif how != 'none':
+            commands.append(['burst', script, how])
+    for _ in range(draw(st.integers(4, 14))):
+        if draw(st.integers(0, 9)) < 7:
+            line = draw(mode_session_line())
+            if raw_hf or draw(st.booleans()):
+                commands.append(['raw', line])
+            else:
+                commands.append(['cmd', line, response_type_of(line)])
+        else:
+            lines = draw(st.lists(mode_session_line(), min_size=2, max_size=5))
+            commands.append(['burst', lines, draw(st.sampled_from(['one', 'one', 'each']))])
+    case['commands'] = commands
+    return case
+
+
+def mode_enumeration() -> list:
+    """Directed: the same set of granted / refused commands under every error-report mode history
+    (default, AT+CMEE=1, =0 again, =1 again), line by line and in bursts; three gateway configurations (a subset
+    of the call-hold operations + one call; no indicators, no operations; everything + 23-byte frames); the
+    harness or HfProtocol as hands-free side."""
+    call = lambda i: [i, 0, 0, 0, 0, '123', 129]  # noqa: E731
+    a = dict(_ENUM_BASE, hf_features=HF_ALL, ag_features=AG_ALL, ag_indicators=SUITE_INDICATORS[:3],
+             hf_ind_hf=[1, 2], hf_ind_ag=[1], chld=['0', '1', '1x', '2'], calls=[call(1)])
+    b = dict(a, hf_features=0, ag_features=0, ag_indicators=[], chld=[], calls=[], hf_ind_hf=[], hf_ind_ag=[])
+    c = dict(a, chld=list(CHLD_OPS), calls=[call(1), call(2)],
+             rf={'ch': 7, 'c': [23, 1], 's': [23, 2], 'l2cap_mtu': [48, 48]})
+    refusable = ['AT+CHLD=4', 'AT+CHLD=3', 'AT+CHLD=17', 'AT+CHLD=11', 'AT+CHLD=21', 'AT+CHLD=23', 'AT+CHLD=0',
+                 'AT+CMER=2,0,0,1', 'AT+CMER=3,1,0,1', 'AT+CMER=3,0,2', 'AT+CMER=3,0,0,2', 'AT+CMER=3,0,0,1',
+                 'AT+CMER=3', 'AT+CIND=?', 'AT+CIND?', 'AT+BIEV=2,1', 'AT+BIEV=1,1', 'AT+CHLD=2']
+    out = []
+    for k, (cfg, hf_side) in enumerate(((a, 'raw'), (a, 'api'), (b, 'raw'), (b, 'raw'), (c, 'raw'), (c, 'api'))):
+        one = (lambda l: ['raw', l]) if hf_side == 'raw' or k % 2 else (lambda l: ['cmd', l, response_type_of(l)])
+        commands = [['raw', l] for l in slc_script(int(cfg['hf_features']))] if hf_side == 'raw' else []
+        commands += [one(l) for l in refusable]
+        commands += [one('AT+CMEE=1')] + [one(l) for l in refusable]
+        commands += [one('AT+CMEE=0')] + [one(l) for l in refusable]
+        commands += [one('AT+CMEE=1'), ['burst', refusable, 'one'], one('AT+CMEE=0'), ['burst', refusable, 'each'],
+                     ['burst', ['AT+CMEE=1'] + refusable[:6] + ['AT+CMEE=0'] + refusable[:6] + ['AT+CMEE=1']
+                      + refusable[6:], 'one']]
+        case = dict(cfg, carrier='le' if k % 2 else 'classic', whole_chunks=bool(k % 3 == 0), commands=commands)
+        if hf_side == 'raw':
+            case['hf'] = 'raw'
+        out.append(case)
+    return out
+
+
 def hfp_cases(masks=None, with_commands=True, commands=None, rf=None, extra=None):
     mask_st = masks if masks is not None else st.one_of(
         st.tuples(st.integers(0, HF_ALL), st.integers(0, AG_ALL)),
@@ -2104,6 +2352,14 @@ def run(ctx) -> None:
                     commands=[['burst', sess, 'each' if j % 3 == 2 else 'one']])
         run_hfp_case(ctx, case)
 
+    # sessions with mode-setting commands (AT+CMEE=0/1 ...) before commands the gateway grants or refuses: the
+    # directed family is run by every shard, then sampled sessions
+    modes = mode_enumeration()
+    ctx.extra['directed_mode_sessions'] = len(modes)
+    for case in modes:
+        run_hfp_case(ctx, case)
+    ctx.hyp('hfp_modes', lambda c: run_hfp_case(ctx, c), mode_session_cases(), max_examples=ctx.n(120, 4800))
+
     for label, n in (('carrier:classic', 10), ('carrier:le', 10), ('dlcs:1', 5), ('dlcs:2', 5), ('dlcs:3', 3),
                      ('dlcs:4', 3), ('beyond_initial_credits', 20), ('ledger_wrapped', 5), ('credit_only_frames', 10),
                      ('l2cap_mtu_limits_frame', 10), ('two_byte_length', 5), ('close_by_client', 5),
@@ -2119,7 +2375,17 @@ def run(ctx) -> None:
                      ('session_after:acl_c', 2), ('session_after:acl_s', 2),
                      ('command:burst', 30), ('at_chunk:multi_command', 15), ('at_chunk:split_command', 15),
                      ('at_command_longer_than_frame', 10), ('command:ag_negotiate_codec', 5),
-                     ('active_codec_compared', 10)):
+                     ('active_codec_compared', 10),
+                     # extension 2: mode-setting commands before granted / refused commands
+                     # (the directed family alone gives, per process: 1_then unsupported_op 4, unknown_index 4,
+                     # cmer_bad_values 6, cind_no_indicators 2 - the floors ask for sampled sessions on top)
+                     ('hf_raw_session', 30), ('cmee_set:1', 40), ('cmee_set:0', 25), ('cmee_switched_twice', 15),
+                     ('cmee_1_then:chld_unsupported_op', 6), ('cmee_1_then:chld_unknown_index', 6),
+                     ('cmee_1_then:chld_granted', 4), ('cmee_1_then:cmer_bad_values', 7),
+                     ('cmee_1_then:cmer_granted', 5), ('cmee_1_then:cind_no_indicators', 4),
+                     ('cmee_1_then:cind_granted', 3), ('cmee_0_then:chld_unsupported_op', 4),
+                     ('cmee_0_then:cmer_bad_values', 6), ('cmee_0_then:cind_no_indicators', 2),
+                     ('cmee_default_then:chld_unsupported_op', 4), ('cmee_default_then:cind_no_indicators', 10)):
         ctx.floor(label, n)
 
 
